@@ -111,8 +111,8 @@ def h1(prog):
                 findings.append({"key": "H1:%s" % f["q"], "where": c["l"],
                                  "msg": "%s writes a range of an address set in place through coverage::%s (%s): the sorted/disjoint/non-adjacent canonical form is only maintained inside coverage's own members" % (f["q"], c["fn"], written),
                                  "detail": None})
-    if n < 15:
-        raise Broken("only %d range accesses outside coverage found (floor 15)" % n)
+    if n < 8:
+        raise Broken("only %d range accesses outside coverage found (floor 8)" % n)
     return inst, findings
 
 
@@ -560,6 +560,18 @@ def h7(prog, tier="quick"):
         back = rel.get((b, a))
         if back is not None and {"less": "greater", "greater": "less", "equal": "equal"}.get(r) != back:
             report("H7:value_aset::cmp", "libzwerg/" + fc["l"], "value_aset::cmp is not antisymmetric on %s and %s (%s / %s)" % (show(_canon(a, U)), show(_canon(b, U)), r, back))
+    if len(rel) == len(allm) ** 2:
+        done = False
+        for a in allm:
+            for b in allm:
+                if done or rel[(a, b)] != "less":
+                    continue
+                for c in allm:
+                    if rel[(b, c)] == "less" and rel[(a, c)] != "less":
+                        report("H7:value_aset::cmp", "libzwerg/" + fc["l"], "value_aset::cmp is not transitive: %s < %s < %s but the first compares `%s` with the last" % (
+                            show(_canon(a, U)), show(_canon(b, U)), show(_canon(c, U)), rel[(a, c)]))
+                        done = True
+                        break
     inst.append(("H7:value_aset::cmp", {"pairs": len(rel)}))
     return inst, findings
 
